@@ -2,6 +2,7 @@
 from __future__ import annotations
 
 import random
+import warnings
 
 import numpy as np
 
@@ -110,6 +111,67 @@ def collection_copy_check(ctx, rng):
                 rec.fail(monitor="C12.copy.equal", op="HistogramCollection.copy", symptom="mutating a member on one side of a collection copy changed the other side", diff=sorted(d), detail={})
 
 
+def options_check(ctx, rng):
+    """Sources built with non-default options (keep_missed off, explicit dtype, ND): whatever is derived from them owns all of
+    its state - also the counters of missed weight, which additions update even when the tracking flag is off."""
+    import physt
+    from .. import gen
+
+    rec = ctx.rec
+    rec.mon("C12.copy.equal")
+    d = rng.choice([1, 1, 2])
+    edges = [np.array(gen.regular_edges(rng, rng.randint(2, 5))) for _ in range(d)]
+    pairs = [gen.pairs_from_edges(e.tolist()) for e in edges]
+
+    def rows(n, outside):
+        return np.array([gen.data_for_bins(rng, p, n, outside=outside) for p in pairs], dtype=float).T.reshape(n, d)
+
+    def make(n, outside, **kw):
+        r = rows(n, outside)
+        return physt.h1(r[:, 0], edges[0].copy(), **kw) if d == 1 else physt.h(r, [e.copy() for e in edges], **kw)
+
+    keep = rng.random() < 0.4
+    try:
+        with warnings.catch_warnings():
+            warnings.simplefilter("ignore")
+            src = make(rng.randint(1, 10), True, keep_missed=keep)
+            how = rng.choice(["copy", "add", "mul", "merge", "slice", "copy_empty"])
+            if how == "copy":
+                der = src.copy()
+            elif how == "add":
+                der = src + make(2, False, keep_missed=keep)
+            elif how == "mul":
+                der = src * 2
+            elif how == "merge":
+                der = src.merge_bins(1)
+            elif how == "slice":
+                der = src[:] if d == 1 else src[:, :]
+            else:
+                der = src.copy(include_frequencies=False)
+            part = make(8, True)  # tracks what it missed: carries out-of-range weight
+            part.fill_n(rows(3, True)[:, 0] if d == 1 else rows(3, True))
+            target, other = (der, src) if rng.random() < 0.6 else (src, der)
+            with attach.quiet():
+                before = snap.snapshot(other)
+            mut = rng.choice(["iadd_part", "iadd_part", "keep_on_fill", "isub"])
+            if mut == "iadd_part":
+                target += part
+            elif mut == "keep_on_fill":
+                target.keep_missed = True
+                far = [float(e[-1] + 5) for e in edges]
+                target.fill(far[0] if d == 1 else far, 2)
+            else:
+                target -= target * 0.5
+    except Exception as ex:
+        rec.fail(monitor="C12.copy.equal", op="options", symptom=f"derivation / mutation with non-default options raised {type(ex).__name__}", diff=["raised"], detail={"error": str(ex)[:200]})
+        return
+    with attach.quiet():
+        dd = snap.diff(before, snap.snapshot(other))
+        if dd:
+            rec.fail(monitor="C12.copy.equal", op=f"{how} then {mut}", symptom="mutating one of (source, derived histogram) changed what the other one reports", diff=sorted(dd),
+                     detail={"keep_missed": keep, "derivation": how, "mutation": mut, "mutated": "derived" if target is der else "source", "dim": d})
+
+
 def one_history(ctx, index: int, rng: random.Random):
     world = ctx.world
     world.clear()
@@ -119,6 +181,8 @@ def one_history(ctx, index: int, rng: random.Random):
         copy_checks(ctx, rng, world)
     if rng.random() < 0.15:
         collection_copy_check(ctx, rng)
+    if rng.random() < 0.4:
+        options_check(ctx, rng)
     st = h.stats
     nontrivial = st["derivations"] >= 1 and st["grow"] >= 1
     ctx.rec.case(h.log, nontrivial, cls=f"deriv{min(st['derivations'], 5)}/grow{min(st['grow'], 3)}", sample={"log": h.log[:25], "stats": st})
